@@ -1096,7 +1096,7 @@ func child(o *vh.Opts) {
 	if err := launch.LoadHinters(encs); err != nil {
 		panic(err)
 	}
-	w := &world{enc: enc, encs: encs, r: vh.NewRand(o.Seed), priv: base.NewMPrivatekey(), nid: base.NetworkID("c30 network")}
+	w := &world{enc: enc, encs: encs, r: vh.NewRand(vh.NewRand(o.Seed).U64()), priv: base.NewMPrivatekey(), nid: base.NetworkID("c30 network")}
 	h := &runner{o: o, w: w, cur: filepath.Join(o.Out, "current_case.json"),
 		res:   vh.NewResult("every registered request header type (30) and response header type (3) written by ClientBroker/HandlerBroker with bodies of every kind, read back through quicstream.readPrefix + HandlerBroker.ReadRequestHead / ClientBroker.ReadResponseHead / ReadBody under chunked readers (3 EOF policies) and over io.Pipe with chunking writers through PrefixHandler+NewHandler; all/5th truncations; >= 20000 mutated / crafted / raw byte streams into the read side. Non-trivial = a complete exchange of a distinct (header type, chunking)"),
 		cases: &vh.Cases{Import: "From MV Require Import C30.Model.", Type: "case", CheckFn: "check", Shard: 400}}
